@@ -184,9 +184,14 @@ def replay_2d():
         den = 2 * math.pi * (1 - math.exp(-4.5))
         want.append(num / den)
     want = np.array(want)
-    err = np.abs(got - want) / np.abs(want)
-    return bool(np.max(err) > 2e-3), {"call": "Pinhole2D(accuracy='xhigh').apply on a quadratic form with a qx*qy term",
-                                      "real": got.tolist(), "spec": want.tolist(), "max_rel_err": float(np.max(err))}
+    # error measured against the size of the smearing effect itself (smeared minus unsmeared value)
+    centre = f(d.qx_data, d.qy_data)
+    shift = np.abs(want - centre)
+    err = np.abs(got - want) / shift
+    return bool(np.max(err) > 2e-2), {"call": "Pinhole2D(accuracy='xhigh').apply on a quadratic form with a qx*qy term",
+                                      "real": got.tolist(), "spec": want.tolist(), "unsmeared": centre.tolist(),
+                                      "max_rel_err": float(np.max(err)),
+                                      "note": "error relative to the smearing shift |smeared - unsmeared|"}
 
 
 # --------------------------------------------------------------------------
@@ -269,6 +274,25 @@ def convergence_runs(reg, tier):
             reg.fail(oid, {"call": "%s on grids of spacing %s" % (name, hs), "real": errs,
                            "spec": "relative error <= 0.6 h / width on every grid and decreasing from the coarsest to the finest"},
                      function=where, engine="runtime-contract", kind="bounded")
+    # slit length and width together: the width direction is a fixed 61-point sum, whatever the calculation grid
+    f = funcs["lorentz2"]
+    Ld, Wd2 = 0.05, 0.015
+    qb = np.array([0.05, 0.1, 0.17])
+    exact = [integrate.dblquad(lambda u, v, qi=qi: f(math.sqrt((qi + v) ** 2 + u * u)), -Wd2, Wd2, 0, Ld,
+                               epsabs=1e-12, epsrel=1e-10)[0] / (2 * Wd2 * Ld) for qi in qb]
+    errs = []
+    for h in hs:
+        g = np.unique(np.concatenate([np.linspace(0.0005, 0.3, int(math.ceil(0.2995 / h)) + 1), qb]))
+        r = resolution.Slit1D(qb, q_length=Ld, q_width=Wd2, q_calc=g)
+        errs.append(float(np.max(np.abs(r.apply(f(r.q_calc)) - exact) / np.abs(exact))))
+    oid = "%s.convergence.region.slit_length_and_width_fixed_61_point_sum" % PROP
+    if all(e <= 0.6 * h / Wd2 + 1e-9 for e, h in zip(errs, hs)) and errs[2] <= 0.75 * errs[0] + 1e-9:
+        reg.passed(oid, function=where, engine="runtime-contract", kind="bounded", backend="cpython",
+                   bound="spacings %s: %s" % (hs, ["%.2e" % e for e in errs]))
+    else:
+        reg.fail(oid, {"call": "Slit1D(q, q_length=0.05, q_width=0.015) on grids of spacing %s against dblquad" % hs,
+                       "real": errs, "spec": "relative error <= 0.6 h / width and decreasing with h"},
+                 function=where, engine="runtime-contract", kind="bounded")
     # folded window (q < W): converges up to the mass of [0, 0.02 q_min] that the |q| cut removes
     f = funcs["lorentz2"]
     Wd, qf_ = 0.03, np.array([0.02, 0.05])
